@@ -188,6 +188,9 @@ def history(args):
     def body(ctx):
         ec.reset_problem(prob, ctx)
         shim.reset()
+        # should the store key a dict/set on individuals (hash of the design vector): all symbolic numbers hash alike, Python
+        # then falls back to == (symbolic fork).  Sound here: every vector entry in this harness is symbolic.
+        ctx.hash_hook = lambda x: 0
         prob.name, prob.description = 'problem-name', 'descr'
         for i, p in enumerate(prob.parameters):
             p['bounds'] = [ctx.real('lb%d' % i), ctx.real('ub%d' % i)]
@@ -332,6 +335,7 @@ def configs(tier):
         ('s0-s1-m0-all', ['sync0', 'sync1', 'mut0', 'all'], 2, False),
         ('same-id-last-wins', ['sync0', 'sync1'], 2, True),
         ('all-m1-s1', ['all', 'mut1', 'sync1'], 2, False),
+        ('s0-s1-m1-all', ['sync0', 'sync1', 'mut1', 'all'], 2, False),
         # a row rewritten individually between two bulk syncs, data reverted in between (stale-cache pattern)
         ('all-m0-s0-rev0-all', ['all', 'mut0', 'sync0', 'rev0', 'all'], 1, False),
         ('s0-all-m0-s0-rev0-all', ['sync0', 'all', 'mut0', 'sync0', 'rev0', 'all'], 2, False),
